@@ -4,9 +4,11 @@
    What is proved, for EVERY oracle (= every outcome of the floating-point
    predicates: degenerate test, hole/outer classification, hole order, keyhole
    connector, queue membership, ear order):
-     - the ported EarClip keeps  boundary(emitted) + edges(live lists) = input contours,
-       uses only input indices and clips every record at most once
-       (earclip_chain, earclip_count_partial);
+     - the ported EarClip terminates without undefined behaviour (earclip_terminates) and its
+       triangles satisfy the chain identity, use only input indices, #triangles + #filtered =
+       V + 2*joins - #live (earclip_chain, earclip_total_correctness, earclip_count_partial);
+     - AddHalfedge's hash pairing is reciprocal with swapped endpoints and complete exactly for
+       zero chains (pairing_reciprocal);
      - TriangulateConvex satisfies the same identities (convex_strip_chain, all n);
      - the area identity follows from the chain identity (area_sum);
      - the exact checker run on the implementation's outputs is sound (tri_check_soundness).
